@@ -12,12 +12,15 @@ theorem scan_locked_of_crit {s : Sys} {k : Crit} (hG : GInv s) (hk : s.crit = so
 
 /-- the key-lock holder forwards its command and releases the lock (pull without entry, push after UMSYNC) -/
 theorem step_unlock_fwd {s : Sys} {k : Crit} (hG : GInv s) (hO : OInv s) (_hW : WF s) (hk : s.crit = some k)
-    (hpc : k.pc = .pEntryNone ∨ ∃ r, k.pc = .uSyncGot r) :
+    (hpc : k.pc = .pEntryNone ∨ ∃ r, k.pc = .uSyncGot r ∧ r ≠ .err) :
     GInv (setPc { s with crit := none } k.id .pCmd) ∧ OInv (setPc { s with crit := none } k.id .pCmd) := by
-  have hne : k.pc ≠ .uSlow := by rcases hpc with h | ⟨r, h⟩ <;> rw [h] <;> simp
-  have hnt : k.pc ≠ .tail := by rcases hpc with h | ⟨r, h⟩ <;> rw [h] <;> simp
+  have hne : k.pc ≠ .uSlow := by rcases hpc with h | ⟨r, h, _⟩ <;> rw [h] <;> simp
+  have hnt : k.pc ≠ .tail := by rcases hpc with h | ⟨r, h, _⟩ <;> rw [h] <;> simp
   have hpre : s.dstSt ≠ .preCheck := fun h => by have := (hG.b2 h).2.1; simp [hk] at this
-  have hgone : s.src = none := hG.b5a k hk (by rcases hpc with h | ⟨r, h⟩ <;> rw [h] <;> rfl)
+  have hgone : s.src = none := hG.b5a k hk (by
+    rcases hpc with h | ⟨r, h, hr⟩
+    · rw [h]; rfl
+    · rw [h]; cases r <;> first | rfl | exact absurd rfl hr)
   have hG1 : GInv { s with crit := none, auxDel := s.auxDel } :=
     ginv_unlock hG (scan_locked_of_crit hG hk hne) (fun h => ⟨hG.b4a h, hpre⟩)
   have hO1 : OInv { s with crit := none, auxDel := s.auxDel } :=
@@ -35,13 +38,13 @@ theorem step_unlock_fwd {s : Sys} {k : Crit} (hG : GInv s) (hO : OInv s) (_hW : 
       refine ⟨by rw [hid] at hlt; exact hlt, hoa.2.1, ?_⟩
       simp only [setPc, DstFlight, Moved, critDump]
       refine ⟨hpre, Or.inr hgone, fun _ => ⟨hgone, trivial, ?_⟩⟩
-      rcases hpc with h | ⟨r, h⟩
+      rcases hpc with h | ⟨r, h, hr⟩
       · -- a pull never carries a deleting command
         rename_i hd
         have hnb := hg8.2 (by rw [h]; rfl)
         have := hoa.2.1 hd
         rw [hnb] at this; cases this
-      · exact hG.b7 k hk (by rw [h]; rfl)
+      · exact hG.b7 k hk (by rw [h]; cases r <;> first | rfl | exact absurd rfl hr)
     · simp only [hid, if_false]
       exact opOk_frame hoa (Nat.le_refl _) (fun _ => id) id id id id (fun _ h => h) (fun _ h => h)
 
@@ -68,9 +71,28 @@ theorem step_tau_unlock {s s' : Sys} {t : Tau} (hG : GInv s) (hO : OInv s) (hW :
     · simp at hs
   · simp only [stepTau] at hs
     split at hs
-    · rename_i cid r hk
+    · -- the source answered with an error: the command fails and is not forwarded
+      rename_i cid hk
       cases hs
-      exact ⟨step_unlock_fwd hG hO hW hk (Or.inr ⟨r, rfl⟩), rfl⟩
+      have hpre : s.dstSt ≠ .preCheck := fun h => by have := (hG.b2 h).2.1; simp [hk] at this
+      have hG1 : GInv { s with crit := none, auxDel := s.auxDel } :=
+        ginv_unlock hG (scan_locked_of_crit hG hk (by simp)) (fun h => ⟨hG.b4a h, hpre⟩)
+      have hO1 : OInv { s with crit := none, auxDel := s.auxDel } :=
+        oinv_eff hO rfl (Nat.le_refl _) (fun _ => id) id id (eff_refl s) (fun _ _ => by simp [critDump]) (fun _ h => h)
+      refine ⟨⟨ginv_ops hG1 (by intro k' hk'; cases hk'), ?_⟩, rfl⟩
+      intro o' ho'
+      rw [mem_setPc] at ho'
+      obtain ⟨a, ha, rfl⟩ := ho'
+      have hoa := hO1 a ha
+      by_cases hid : a.id = cid
+      · have hlt : a.id < s.nextId := hoa.1
+        simp only [hid, if_true]
+        exact ⟨by rw [hid] at hlt; exact hlt, hoa.2.1, trivial⟩
+      · simp only [hid, if_false]
+        exact opOk_frame hoa (Nat.le_refl _) (fun _ => id) id id id id (fun _ h => h) (fun _ h => h)
+    · rename_i cid r hne hk
+      cases hs
+      exact ⟨step_unlock_fwd hG hO hW hk (Or.inr ⟨r, rfl, fun h => hne h⟩), rfl⟩
     · simp at hs
 
 end Um.Mig
